@@ -10,7 +10,7 @@
          recursion over the list; Pool_step_dials), a closed Client never dials again and holds no connection
          (Pool_closed_stays_closed), Client.Close closes every connection it held (Pool_client_close).
    Only statements; proofs are lemmas of Proofs/PoolThms.v.  Tie to the code: the `pool` correspondence suite. *)
-From H2V Require Import Impl.ClientPool Proofs.PoolThms.
+From H2V Require Import Impl.ClientPool Proofs.PoolThms Proofs.PoolLeak.
 From Coq Require Import NArith List Bool.
 Import ListNotations.
 Local Open Scope N_scope.
@@ -65,6 +65,22 @@ Theorem Pool_dropped_replaced : forall evs id d q o, let p := pl_run evs in
   ~ In id (pl_conns q) /\ dials o = 1%nat /\ (forall x, In x (pl_conns q) -> x = pl_next p \/ In x (pl_conns p)).
 Proof. exact dropped_replaced. Qed.
 Print Assumptions Pool_dropped_replaced.
+
+(* no connection is leaked: in every reachable state every connection the client ever made (every successful dial, by
+   pickConn or as a replacement) is in the list or closed ... *)
+Theorem Pool_kept : forall evs c, In c (pl_stat (pl_run evs)) -> In (plc_id c) (pl_conns (pl_run evs)) \/ plc_closed c = true.
+Proof. exact kept_run. Qed.
+Print Assumptions Pool_kept.
+
+(* ... so once Client.Close has run, every connection the client ever made is closed (C12: "after Close ... its
+   goroutines exit": a connection's loops end when it is closed), whatever callbacks and callers come afterwards *)
+Theorem Pool_no_leak_after_close : forall evs c, pl_closed (pl_run evs) = true -> In c (pl_stat (pl_run evs)) -> plc_closed c = true.
+Proof. exact no_leak_after_close. Qed.
+Print Assumptions Pool_no_leak_after_close.
+
+Example Pool_ex_no_leak : let p := pl_run (ex_evs ++ [PEvClientClose; PEvPick PDialOk]) in
+  pl_closed p = true /\ map plc_id (pl_stat p) = [1; 0] /\ map plc_closed (pl_stat p) = [true; true].
+Proof. vm_compute. auto. Qed.
 
 (* the hypotheses are met by a concrete run: two connections dialed, one full, one closing while a caller picks *)
 Example Pool_ex_state : pl_conns (pl_run ex_evs) = [0] /\ pl_next (pl_run ex_evs) = 3 /\ pl_closed (pl_run ex_evs) = false.
